@@ -166,7 +166,7 @@ def cases(tier, seed):
         for v in STR_VARIANTS:
             yield {"kind": "text", "text": "10 " + t % tuple([v] * k), "opts": {}}
     yield {"kind": "text", "text": "10 INPUT A,B$:LINE INPUT C$:READ A,B$\n20 DATA 1,,X", "opts": {}}
-    m = 300 if tier == "quick" else 6000
+    m = 300 if tier == "quick" else 40000
     for i in range(m):
         yield {"kind": "gen", "seed": seed * 1009 + i, "opts": [{}, {"initialize_vars": True}][i % 2],
                "knobs": {"max_depth": 1, "device": True, "ifs": i % 3 == 0}}
